@@ -274,6 +274,22 @@ def make_session(rng, version, fws, extra_nodes=()):
         t, v, img, _ = fws[0]
         streams.append([(("L", f"{n};255;4;0;2;{pack_words(t, v, 0)}\n"), ("idle", n)),
                         (("L", f"{n};255;4;0;0;{pack_words(t, v, 0, 0, 0)}\n"), ("idle", n))])
+    # a late joiner: one more node is scheduled for an already loaded firmware — by a further update call with the
+    # same file — while the others are in the middle of their downloads; nobody's session may suffer
+    if rng.random() < 0.5:
+        k = rng.randrange(len(fws))
+        t, v, img, nids = fws[k]
+        j = next(x for x in range(150, 200) if x not in used)
+        used.add(j)
+        fws = list(fws)
+        fws[k] = (t, v, img, list(nids) + [j])
+        blocks = (len(img) // 128 + 1) * 8
+        late = [(("L", f"{j};255;0;0;17;{version}\n"), None), (("U", [j], t, v, bytes(img)), None),
+                (("L", f"{j};255;4;0;0;{pack_words(t, v, 0, 0, 0)}\n"), ("cfg", j, t, v))]
+        idx = list(range(blocks))
+        rng.shuffle(idx)
+        late += [(("L", f"{j};255;4;0;2;{pack_words(t, v, i)}\n"), ("blk", j, t, v, i)) for i in idx]
+        streams.append(late)
     # interleave the nodes' request streams, keeping each node's own order
     pos = [0] * len(streams)
     live = [i for i, s in enumerate(streams) if s]
